@@ -36,7 +36,10 @@ NCPU = os.cpu_count() or 4
 
 GOTO_CC_BASE = ["goto-cc", "-std=c99", "-DV_CBMC"]
 GCC_BASE = ["gcc", "-std=gnu99", "-g", "-O0", "-w"]
-SAN = ["-fsanitize=address,undefined", "-fno-sanitize-recover=undefined", "-fno-omit-frame-pointer"]
+# signed overflow / left shift of negative values have two's-complement semantics in the encoding (DESIGN.md 1.2), so the
+# native replay does not trap on them either; out-of-range shift distances, bounds, null, alignment etc. still trap
+SAN = ["-fsanitize=address,undefined", "-fno-sanitize=shift-base,signed-integer-overflow", "-fno-sanitize-recover=undefined",
+       "-fno-omit-frame-pointer"]
 
 
 def log(*a):
@@ -272,12 +275,21 @@ def cbmc_cmd(q, gb):
         cmd += ["--object-bits", str(q.object_bits)]
     if not q.standard_checks:
         cmd += ["--no-standard-checks"]
+    else:
+        # signed overflow gets two's-complement semantics (what gcc -O0, the project's build, does);
+        # it is not a reportable event by itself -- the functional assertions decide whether a result is wrong
+        cmd += ["--no-signed-overflow-check"]
     cmd += SOLVER_FLAGS[q.solver]
     cmd += q.flags
     return cmd
 
 
+BENIGN = re.compile(r"^(shift operand is negative|arithmetic overflow on signed )")
+
+
 def classify_desc(desc):
+    if BENIGN.match(desc):
+        return "benign"
     if desc.startswith("WITNESS"):
         return "witness"
     if desc.startswith("unwinding assertion") or "recursion unwinding assertion" in desc:
@@ -342,6 +354,8 @@ def run_query(ctx, q, known):
         if kind == "witness":
             if pr["status"] == "FAILURE":
                 r.witness = True
+            continue
+        if kind == "benign":      # left shift of a negative value: two's-complement semantics, see DESIGN.md 1.2
             continue
         r.n_props += 1
         if fl and fn and not fl.startswith("<"):
@@ -462,7 +476,7 @@ def replay(ctx, q, f, qdir):
     lines.append("/* replay of a CBMC counterexample -- generated by /verif/vlib/core.py")
     lines.append(" * property   : %s" % ctx.pid)
     lines.append(" * query      : %s  (entry %s, harness %s)" % (q.name, q.entry, q.harness))
-    lines.append(" * failing    : [%s] %s  in %s:%s line %s" % (f["prop"], f["desc"], f["file"], f["func"], f["line"]))
+    lines.append(" * failing    : [%s] %s  in %s:%s line %s" % (f["prop"], f["desc"].replace("*/", "* /").replace("/*", "/ *"), f["file"], f["func"], f["line"]))
     lines.append(" * bound      : %s" % q.bound)
     lines.append(" * build      : gcc -std=gnu99 -g -O0 %s -I%s -I%s %s <this file> %s" % (
         " ".join(SAN) if q.sanitize_replay else "", REPO_SRC, HARNESS, " ".join(defs),
